@@ -184,3 +184,15 @@ Proof.
   destruct (front_whole_input s prog H) as [items [cst [k [H1 [H2 [_ [H4 [H5 [H6 _]]]]]]]]].
   exists items, cst, k. auto.
 Qed.
+
+(* ------------------------------------------------------------------ executable entry point for the harness (C10):
+   text -> tokens -> tree -> AST -> intermediate code -> Python text, the whole of _compile_prolog_from_stream *)
+From YP Require Import Comp.Emit Comp.RunCompile.
+
+Definition run_text (s : str) : obs :=
+  match front s with
+  | Some p => run_compile p
+  | None => otag "none" []
+  end.
+
+Definition run_all (s : str) : obs := OL [run_lex s; run_front s; run_text s].
